@@ -11,12 +11,17 @@ import (
 	cryptocodec "github.com/cosmos/cosmos-sdk/crypto/codec"
 	simtestutil "github.com/cosmos/cosmos-sdk/testutil/sims"
 	sdk "github.com/cosmos/cosmos-sdk/types"
+	authtypes "github.com/cosmos/cosmos-sdk/x/auth/types"
+	banktypes "github.com/cosmos/cosmos-sdk/x/bank/types"
 	stakingtypes "github.com/cosmos/cosmos-sdk/x/staking/types"
 
 	abci "github.com/cometbft/cometbft/abci/types"
 	cmttypes "github.com/cometbft/cometbft/types"
 
+	ibckeeper "github.com/cosmos/ibc-go/v10/modules/core/keeper"
+
 	appConsumer "github.com/cosmos/interchain-security/v7/app/consumer"
+	appProvider "github.com/cosmos/interchain-security/v7/app/provider"
 	consumerkeeper "github.com/cosmos/interchain-security/v7/x/ccv/consumer/keeper"
 	consumertypes "github.com/cosmos/interchain-security/v7/x/ccv/consumer/types"
 	ccv "github.com/cosmos/interchain-security/v7/x/ccv/types"
@@ -25,14 +30,21 @@ import (
 // ConsumerApp is one consumer application object whose committed stores stay empty: every consumer
 // chain of a world is booted on its own branch of that pristine root.
 type ConsumerApp struct {
-	CApp *appConsumer.App
-	K    consumerkeeper.Keeper
-	base sdk.Context
+	// Record makes every chain booted from now on log its linear execution (conformance replay)
+	Record bool
+	Booted []*Chain // chains booted while recording
+	CApp   *appConsumer.App
+	K      consumerkeeper.Keeper
+	base   sdk.Context
 }
+
+// RecordNextConsumers makes the next NewConsumerApp record the chains booted on it.
+var RecordNextConsumers bool
 
 func NewConsumerApp() *ConsumerApp {
 	app := appConsumer.New(log.NewNopLogger(), dbm.NewMemDB(), nil, true, simtestutil.EmptyAppOptions{})
-	ca := &ConsumerApp{CApp: app, K: app.ConsumerKeeper}
+	ca := &ConsumerApp{CApp: app, K: app.ConsumerKeeper, Record: RecordNextConsumers}
+	RecordNextConsumers = false
 	registerApp(app)
 	ca.base = app.NewUncachedContext(false, WithHeader(sdk.Context{}, "pristine", 0, GenesisTime).BlockHeader())
 	return ca
@@ -57,6 +69,11 @@ func (ca *ConsumerApp) Boot(chainID string, gen ccv.ConsumerGenesisState, genesi
 		mutate(&cg)
 	}
 	g[consumertypes.ModuleName] = cdc.MustMarshalJSON(&cg)
+	// the relayer's account (it signs the IBC messages of the conformance replay)
+	g[authtypes.ModuleName] = cdc.MustMarshalJSON(authtypes.NewGenesisState(authtypes.DefaultParams(),
+		[]authtypes.GenesisAccount{authtypes.NewBaseAccount(Relayer.Addr, Relayer.Priv.PubKey(), 0, 0)}))
+	g[banktypes.ModuleName] = cdc.MustMarshalJSON(banktypes.NewGenesisState(banktypes.DefaultParams(),
+		[]banktypes.Balance{{Address: Relayer.Addr.String(), Coins: sdk.NewCoins(sdk.NewInt64Coin(BondDenom, acctFunds))}}, nil, nil, nil))
 	for _, f := range genMutate {
 		f(g)
 	}
@@ -86,6 +103,10 @@ func (ca *ConsumerApp) Boot(chainID string, gen ccv.ConsumerGenesisState, genesi
 		return State{}, res.Validators, fmt.Errorf("consumer genesis validator set: %w", err)
 	}
 	ch := &Chain{App: app, ChainID: chainID, TKeys: []string{"transient_params"}}
+	if ca.Record {
+		ch.Rec = &Recorder{Stores: []string{consumertypes.StoreKey}, Genesis: stateBytes, GenesisTime: genesisTime, InitVals: res.Validators}
+		ca.Booted = append(ca.Booted, ch)
+	}
 	st := State{C: ch, Ctx: ctx, Engine: eng, Depth: 1}
 	st.resetTransient()
 	st.Ctx = WithHeader(st.Ctx, chainID, 1, genesisTime.Add(5*time.Second))
@@ -110,4 +131,14 @@ func (ca *ConsumerApp) CCVals(ctx sdk.Context) ValSet {
 		out[PubKeyID(&tm)] = v.Power
 	}
 	return out
+}
+
+// CK returns the consumer keeper of whatever consumer application a raw operation is handed.
+func CK(app ABCIApp) consumerkeeper.Keeper { return app.(*appConsumer.App).ConsumerKeeper }
+
+// PA / IBCK reach the provider application / the IBC keeper of whatever application a raw operation is handed.
+func PA(app ABCIApp) *appProvider.App { return app.(*appProvider.App) }
+
+func IBCK(app ABCIApp) *ibckeeper.Keeper {
+	return app.(interface{ GetIBCKeeper() *ibckeeper.Keeper }).GetIBCKeeper()
 }
